@@ -770,10 +770,20 @@ class Element(object):
         return self._parent
 
     def _set_parent(self, parent):
+        try:
+            old_parent, old_traversal_parent = self._parent, self._traversal_parent
+        except AttributeError:  # first assignment, made by __init__
+            old_parent, old_traversal_parent = None, None
         self._parent = parent
         if parent is not None:
             self.traversal_parent = None
-            self.parent.add(self)
+            try:
+                self.parent.add(self)
+            except Exception:
+                # the parent refused the child: do not leave it pointing to an element that does not list it
+                self._parent = old_parent
+                self._traversal_parent = old_traversal_parent
+                raise
 
     parent = property(_get_parent, _set_parent,
                       doc="The parent :class:`Element <hl7apy.core.Element>` of this one")
